@@ -237,3 +237,268 @@ Example root_symlink :
   unpack_ops idorder all_flags (INode [] KLnk s_up_outside [] []) =
   UOps [OSymlink s_up_outside []; OUtimens []; OChown []].
 Proof. vm_compute. reflexivity. Qed.
+
+(* ======================================================================
+   Session 3 extension: a NON-FRESH unpack root, and the root handling of main()
+   (coq/C06/RootsNonfresh.v, RootsModel.v, RootsMain.v)
+   ====================================================================== *)
+From SqfsV Require Import C06.RootsModel C06.RootsNonfresh C06.RootsMain.
+
+(* ---- unpack_nonfresh_characterised: EVERY initial world (R may hold files,
+   directories and symbolic links left by earlier runs, at names the image uses
+   or not).  If after the run any physical path q that is not strictly beneath R
+   differs from before, then there is a witness: one of the run's own
+   (EEXIST-tolerant) mkdir calls, with path p, and a symbolic link that existed
+   BEFORE the run at R/p.  No other way out of R exists. ---- *)
+Theorem unpack_nonfresh_characterised :
+  forall order, (forall l, Permutation l (order l)) ->
+  forall (new_meta : op -> meta) (set_meta : op -> meta -> meta) (new_data : op -> data)
+         fl raw ops fuel (W : world) (R : list (list N)) q,
+  unpack_ops order fl raw = UOps ops ->
+  ~ under R q ->
+  fst (run new_meta set_meta new_data fuel W R ops) q <> W q ->
+  exists p m tgt, In (OMkdir p) ops /\ W (R ++ split_slash p) = Some (OLink m tgt).
+Proof. exact unpack_nonfresh_characterised_l. Qed.
+Print Assumptions unpack_nonfresh_characterised.
+
+(* the witness' mkdir is the mkdir of a DIRECTORY of the (sorted) image: its
+   path is the clean join of the names leading to a visited KDir node *)
+Theorem witness_is_image_directory :
+  forall order, (forall l, Permutation l (order l)) ->
+  forall fl raw ops p, unpack_ops order fl raw = UOps ops -> In (OMkdir p) ops ->
+  exists t, tree_sort (load raw) = SortOk t /\
+    (p = [] \/ exists cs, p = join cs /\ cs <> [] /\ Forall clean_name cs /\ In (cs, KDir) (visit_root t)).
+Proof. exact mkdir_is_image_dir. Qed.
+Print Assumptions witness_is_image_directory.
+
+(* ---- no_write_through_preexisting_link: R may contain symbolic links at the
+   names the image uses for regular files, devices, fifos, sockets and symbolic
+   links, and anywhere else; as long as none sits where the run makes a
+   DIRECTORY, (1) no object outside R is created or changed, in content or
+   metadata, and (2) every symbolic link that existed below R is still exactly
+   the same object.  (unpack_confined is the special case without any link.) ---- *)
+Theorem no_write_through_preexisting_link :
+  forall order, (forall l, Permutation l (order l)) ->
+  forall (new_meta : op -> meta) (set_meta : op -> meta -> meta) (new_data : op -> data)
+         fl raw ops fuel (W : world) (R : list (list N)),
+  unpack_ops order fl raw = UOps ops ->
+  no_link_at_mkdir W R ops ->
+  (forall q, ~ under R q -> fst (run new_meta set_meta new_data fuel W R ops) q = W q) /\
+  (forall s m tgt, W (R ++ s) = Some (OLink m tgt) ->
+                   fst (run new_meta set_meta new_data fuel W R ops) (R ++ s) = Some (OLink m tgt)).
+Proof. exact unpack_nonfresh_l. Qed.
+Print Assumptions no_write_through_preexisting_link.
+
+(* why: (a) symlink / mknod / open(O_CREAT|O_EXCL) fail on ANY existing name,
+   a symbolic link included (the run stops with an error) ... *)
+Theorem excl_create_refuses_existing :
+  forall new_meta set_meta new_data fuel W R o p pp ob,
+  excl_create o = true -> op_path o = Some p ->
+  resolve fuel W R p false = RFound pp ob ->
+  exec_op new_meta set_meta new_data fuel W R o = None.
+Proof. exact excl_create_refuses_existing_l. Qed.
+Print Assumptions excl_create_refuses_existing.
+
+(* ... when they succeed, exactly one object appears at a place where the
+   no-follow resolution found nothing, a regular file being empty ... *)
+Theorem excl_create_effect :
+  forall new_meta set_meta new_data fuel W R o p W',
+  excl_create o = true -> op_path o = Some p ->
+  exec_op new_meta set_meta new_data fuel W R o = Some W' ->
+  exists pp ob, resolve fuel W R p false = RMissing pp /\ W' = upd W pp ob /\
+                (forall m d, ob = OFile m d -> d = 0).
+Proof. exact excl_create_effect_l. Qed.
+Print Assumptions excl_create_effect.
+
+(* ... and (b) the fill pass opens (O_TRUNC, following) only names whose
+   exclusive creation stands earlier in the list of the same run *)
+Theorem fill_opens_only_created :
+  forall order, (forall l, Permutation l (order l)) ->
+  forall fl raw ops l1 p l2,
+  unpack_ops order fl raw = UOps ops -> ops = l1 ++ OOpenTrunc p :: l2 ->
+  p = [] \/ In (OCreatExcl p) l1.
+Proof. exact fill_opens_only_created_l. Qed.
+Print Assumptions fill_opens_only_created.
+
+(* ---- witnesses.  /w/R holds conf -> ../outside/victim (an earlier image's
+   legitimate symlink) and an unrelated link zz -> /; the second image has a
+   regular file conf and a directory d with file pwn. ---- *)
+Definition s_conf := [99; 111; 110; 102].                   (* "conf" *)
+Definition s_zz := [122; 122].
+Definition s_victim := [118; 105; 99; 116; 105; 109].       (* "victim" *)
+Definition s_to_victim := [46; 46; 47; 111; 117; 116; 115; 105; 100; 101; 47; 118; 105; 99; 116; 105; 109].
+Definition second_image : itree :=
+  INode [] KDir [] [] [ INode s_conf KReg [] [] []; INode s_d KDir [] [] [ INode s_pwn KReg [] [] [] ] ].
+Definition world_nonfresh : world :=
+  upd (upd (upd world0 [s_w; s_outside; s_victim] (OFile 0 7))
+           [s_w; s_R; s_conf] (OLink 0 s_to_victim))
+      [s_w; s_R; s_zz] (OLink 0 [47]).
+Definition victim_path : list (list N) := [s_w; s_outside; s_victim].
+
+Lemma victim_not_under : ~ under R0 victim_path.
+Proof. intros (s & _ & E). discriminate E. Qed.
+
+(* non-vacuity of no_write_through_preexisting_link: the hypothesis holds in a
+   world WITH symbolic links below R (one at the name of a regular file of the
+   image); the run stops at the first call, open(conf, O_CREAT|O_EXCL) = EEXIST *)
+Example nonfresh_hypothesis_holds :
+  match unpack_ops idorder all_flags second_image with
+  | UOps ops =>
+    ops = [OCreatExcl s_conf; OMkdir s_d; OCreatExcl (s_d ++ [47] ++ s_pwn);
+           OOpenTrunc s_conf; OOpenTrunc (s_d ++ [47] ++ s_pwn);
+           OUtimens s_conf; OChown s_conf; OChmod s_conf;
+           OUtimens (s_d ++ [47] ++ s_pwn); OChown (s_d ++ [47] ++ s_pwn); OChmod (s_d ++ [47] ++ s_pwn);
+           OUtimens s_d; OChown s_d; OChmod s_d] /\
+    existsb (bad_mkdir world_nonfresh R0) ops = false /\
+    snd (run nm sm nd 100 world_nonfresh R0 ops) = O /\
+    fst (run nm sm nd 100 world_nonfresh R0 ops) victim_path = Some (OFile 0 7)
+  | _ => False
+  end.
+Proof. vm_compute. repeat split. Qed.
+
+Example nonfresh_hypothesis_from_bool :
+  forall W R ops, existsb (bad_mkdir W R) ops = false -> no_link_at_mkdir W R ops.
+Proof. exact no_bad_mkdir. Qed.
+
+(* MODEL OF SEED C06-8's BUG (not of the code): create_node() makes regular
+   files with creat(name, mode) = open(O_CREAT|O_WRONLY|O_TRUNC) - in the list
+   every OCreatExcl becomes OOpenTruncCreate, which follows a final symbolic
+   link.  The statement of no_write_through_preexisting_link fails for it: same
+   image, same world, hypothesis still true, /w/outside/victim is overwritten. *)
+Theorem no_write_through_preexisting_link_creat_variant_refuted :
+  exists raw ops W R q,
+    unpack_ops idorder all_flags raw = UOps ops /\
+    no_link_at_mkdir W R (creat_variant ops) /\ ~ under R q /\
+    fst (run nm sm nd 100 W R (creat_variant ops)) q <> W q.
+Proof.
+  exists second_image. eexists. exists world_nonfresh, R0, victim_path.
+  split; [vm_compute; reflexivity|]. split; [apply no_bad_mkdir; vm_compute; reflexivity|].
+  split; [exact victim_not_under|]. vm_compute. discriminate.
+Qed.
+Print Assumptions no_write_through_preexisting_link_creat_variant_refuted.
+
+(* the characterisation at work on the two-image attack of
+   unpack_preexisting_link_refuted: the change outside R has its witness, the
+   planted link /w/R/d and the run's mkdir("d") *)
+Example planted_link_has_witness :
+  exists ops, unpack_ops idorder all_flags benign = UOps ops /\
+    In (OMkdir s_d) ops /\
+    world_planted (R0 ++ split_slash s_d) = Some (OLink 0 s_up_outside) /\
+    existsb (bad_mkdir world_planted R0) ops = true.
+Proof.
+  eexists. split; [vm_compute; reflexivity|]. split; [left; reflexivity|].
+  split; vm_compute; reflexivity.
+Qed.
+
+(* ---- unpack_root_handling: main() = tree_sort; mkdir_p(R); chdir(R); three
+   passes.  W1 = the world after mkdir_p. ---- *)
+
+(* mkdir_p(R) changes nothing but adds directories where nothing was *)
+Theorem mkdir_p_only_adds_directories :
+  forall new_meta set_meta new_data fuel W S r,
+  same_or_new_dir W (fst (mkdir_p_run new_meta set_meta new_data fuel W S r)).
+Proof. exact mkdir_p_run_dirs. Qed.
+Print Assumptions mkdir_p_only_adds_directories.
+
+(* chdir(R) fails (R is a regular file, a dangling or looping link, missing,
+   not a directory the process may enter): NO call of the three passes is
+   issued, exit status failure, the world is the one mkdir_p left *)
+Theorem unpack_root_chdir_fails :
+  forall new_meta set_meta new_data can_enter fuel W S r ops,
+  chdir can_enter fuel (fst (mkdir_p_run new_meta set_meta new_data fuel W S r)) S r = None ->
+  let out := main_unpack new_meta set_meta new_data can_enter true fuel W S (Some r) (UOps ops) in
+  m_executed out = O /\ m_cwd out = None /\ m_status out = ExitFail /\
+  m_world out = fst (mkdir_p_run new_meta set_meta new_data fuel W S r) /\ same_or_new_dir W (m_world out).
+Proof. exact main_chdir_fails_l. Qed.
+Print Assumptions unpack_root_chdir_fails.
+
+(* exit status 0, or a single call of the passes issued, needs a successful
+   chdir: the passes then are exactly [run] in the PHYSICAL directory D that R
+   resolves to from the start directory with every symbolic link followed *)
+Theorem unpack_root_started :
+  forall new_meta set_meta new_data can_enter fuel W S r ops,
+  let out := main_unpack new_meta set_meta new_data can_enter true fuel W S (Some r) (UOps ops) in
+  let W1 := fst (mkdir_p_run new_meta set_meta new_data fuel W S r) in
+  (m_status out = ExitOK \/ m_executed out <> O \/ m_cwd out <> None) ->
+  exists D m, resolve fuel W1 S (cut0 r) true = RFound D (ODir m) /\ can_enter D = true /\
+              m_cwd out = Some D /\
+              m_world out = fst (run new_meta set_meta new_data fuel W1 D ops) /\
+              m_executed out = snd (run new_meta set_meta new_data fuel W1 D ops) /\
+              (m_status out = ExitOK <-> snd (run new_meta set_meta new_data fuel W1 D ops) = length ops).
+Proof. exact main_started_l. Qed.
+Print Assumptions unpack_root_started.
+
+(* end to end, for every image: the "R" of unpack_confined /
+   unpack_nonfresh_characterised is that physical directory D *)
+Theorem unpack_root_handling :
+  forall order, (forall l, Permutation l (order l)) ->
+  forall new_meta set_meta new_data can_enter fl raw fuel W S r,
+  let out := main_unpack new_meta set_meta new_data can_enter true fuel W S (Some r) (unpack_ops order fl raw) in
+  let W1 := fst (mkdir_p_run new_meta set_meta new_data fuel W S r) in
+  same_or_new_dir W W1 /\
+  (m_cwd out = None ->
+     m_executed out = O /\ m_status out = ExitFail /\ (m_world out = W1 \/ m_world out = W)) /\
+  (forall D, m_cwd out = Some D ->
+     exists ops m, unpack_ops order fl raw = UOps ops /\
+       resolve fuel W1 S (cut0 r) true = RFound D (ODir m) /\
+       forall q, ~ under D q ->
+         (no_link_at_mkdir W1 D ops -> m_world out q = W1 q) /\
+         (m_world out q <> W1 q ->
+            exists p m' tgt, In (OMkdir p) ops /\ W1 (D ++ split_slash p) = Some (OLink m' tgt))).
+Proof. exact main_unpack_confined_l. Qed.
+Print Assumptions unpack_root_handling.
+
+(* ---- witnesses for the root handling ---- *)
+Definition s_start := [115; 116; 97; 114; 116].     (* "start" *)
+Definition S0 := [s_w; s_start].
+Definition p_wR := [47; 119; 47; 82].               (* "/w/R" *)
+Definition yes (_ : list (list N)) := true.
+(* /w/start = start directory; /w/R is a REGULAR FILE *)
+Definition world_Rfile : world :=
+  world_of [([], ODir 0); ([s_w], ODir 0); ([s_w; s_start], ODir 0); ([s_w; s_R], OFile 0 7); ([s_w; s_outside], ODir 0)].
+(* /w/R -> outside (= /w/outside, a directory elsewhere) ; /w/R -> g (dangling) *)
+Definition world_Rlink (tgt : list N) : world :=
+  world_of [([], ODir 0); ([s_w], ODir 0); ([s_w; s_start], ODir 0); ([s_w; s_R], OLink 0 tgt); ([s_w; s_outside], ODir 0)].
+
+Example mkdir_p_calls_example :
+  mkdir_p_calls [47; 47; 119; 47; 47; 82; 47] = [[47; 119]; [47; 119; 47]; [47; 119; 47; 47; 82]; [47; 119; 47; 47; 82; 47]] /\
+  mkdir_p_calls [47] = [] /\ mkdir_p_calls [] = [] /\ mkdir_p_calls [119; 47; 82] = [[119]; [119; 47; 82]].
+Proof. vm_compute. repeat split. Qed.
+
+(* R is a regular file: mkdir_p succeeds (EEXIST), chdir fails, nothing runs *)
+Example root_is_file_stops :
+  let out := main_unpack nm sm nd yes true 100 world_Rfile S0 (Some p_wR) (unpack_ops idorder all_flags benign) in
+  chdir yes 100 (fst (mkdir_p_run nm sm nd 100 world_Rfile S0 p_wR)) S0 p_wR = None /\
+  snd (mkdir_p_run nm sm nd 100 world_Rfile S0 p_wR) = true /\
+  m_executed out = O /\ m_status out = ExitFail /\ m_world out [s_w; s_start; s_d] = None.
+Proof. vm_compute. repeat split. Qed.
+
+(* a dangling link, and a directory the process may not enter *)
+Example root_dangling_or_unsearchable_stops :
+  m_status (main_unpack nm sm nd yes true 100 (world_Rlink [103]) S0 (Some p_wR) (unpack_ops idorder all_flags benign)) = ExitFail /\
+  m_status (main_unpack nm sm nd (fun _ => false) true 100 world0 S0 (Some p_wR) (unpack_ops idorder all_flags benign)) = ExitFail.
+Proof. vm_compute. split; reflexivity. Qed.
+
+(* R given as a symbolic link to a directory: the passes run in (and only
+   change objects beneath) the directory it points to *)
+Example root_is_link_to_directory :
+  let out := main_unpack nm sm nd yes true 100 (world_Rlink s_outside) S0 (Some p_wR)
+                         (unpack_ops idorder all_flags benign) in
+  m_cwd out = Some [s_w; s_outside] /\ m_status out = ExitOK /\
+  m_world out [s_w; s_outside; s_d; s_pwn] = Some (OFile 4 1) /\ m_world out [s_w; s_R; s_d] = None /\
+  m_world out [s_w; s_start; s_d] = None.
+Proof. vm_compute. repeat split. Qed.
+
+(* MODEL OF SEED C06-7's BUG (not of the code): the result of chdir is only
+   reported.  unpack_root_chdir_fails is false for it: R a regular file, the
+   whole image lands in the start directory and the exit status is 0. *)
+Theorem unpack_root_ignoring_chdir_refuted :
+  exists W S r raw,
+    chdir yes 100 (fst (mkdir_p_run nm sm nd 100 W S r)) S r = None /\
+    let out := main_unpack nm sm nd yes false 100 W S (Some r) (unpack_ops idorder all_flags raw) in
+    m_executed out <> O /\ m_status out = ExitOK /\ m_world out [s_w; s_start; s_d; s_pwn] <> W [s_w; s_start; s_d; s_pwn].
+Proof.
+  exists world_Rfile, S0, p_wR, benign. split; [vm_compute; reflexivity|].
+  vm_compute. repeat split; discriminate.
+Qed.
+Print Assumptions unpack_root_ignoring_chdir_refuted.
